@@ -53,7 +53,10 @@ class Analysis:
             return out
         for f in cm.fields:
             if not (f.sugar or '').startswith('const ') and not (f.type or '').startswith('const '):
-                continue
+                # not declared const: the same if it is an integer that nothing but the constructor's initialiser ever writes
+                if (f.type or '').replace('std::', '') not in ('size_t', 'unsigned long', 'unsigned long long', 'uint64_t', 'unsigned int') \
+                        or self.written_after_construction(cm, f.name):
+                    continue
             ok = bool(paths)
             for p in paths:
                 v = next((e[2] for e in p.trace if e[0] == 'init' and e[1] == ('fld', ('this',), f.name)), None)
@@ -64,6 +67,25 @@ class Analysis:
             if ok:
                 out.add(f.name)
         return out
+
+    def written_after_construction(self, cm, name):
+        """does any path of any public operation store into data member `name`?  (True also when that cannot be established)"""
+        loc = ('fld', ('this',), name)
+        try:
+            for m in cm.methods:
+                if m.access != 'public' or m.is_ctor or m.body is None or m.name.startswith('~'):
+                    continue
+                if m.name.startswith('operator'):
+                    return True
+                for p in self.paths(cm, m):
+                    for e in p.events(None, deep=True):
+                        if e[0] in ('wr', 'atomic', 'swap', 'unknown') and (e[0] == 'unknown' or loc in e[1:3]):
+                            return True
+                        if e[0] == 'call' and e[1] == loc:
+                            return True
+        except Exception:
+            return True
+        return False
 
     def compute_inert(self, cm, roles):
         """data members outside the container model whose value never reaches a decision, a result, another member or an
